@@ -74,6 +74,10 @@ impl Source for FileSource {
         f.seek(SeekFrom::Start(offset.into_u64()))?;
         #[cfg(jubako_verif)]
         crate::verif::point("file_seek_then_read", offset.into_u64(), 0);
+        #[cfg(jubako_verif)]
+        if crate::verif::fault("file_read") {
+            return Err(std::io::Error::from_raw_os_error(5));
+        }
         f.read(buf)
     }
 
@@ -83,6 +87,10 @@ impl Source for FileSource {
         f.seek(SeekFrom::Start(offset.into_u64()))?;
         #[cfg(jubako_verif)]
         crate::verif::point("file_seek_then_read", offset.into_u64(), 1);
+        #[cfg(jubako_verif)]
+        if crate::verif::fault("file_read") {
+            return Err(std::io::Error::from_raw_os_error(5));
+        }
         f.read_exact(buf)
     }
 
@@ -117,6 +125,10 @@ impl Source for FileSource {
             f.seek(SeekFrom::Start(region.begin().into_u64()))?;
             #[cfg(jubako_verif)]
             crate::verif::point("file_seek_then_read", region.begin().into_u64(), 2);
+            #[cfg(jubako_verif)]
+            if crate::verif::fault("file_read") {
+                return Err(std::io::Error::from_raw_os_error(5).into());
+            }
             f.by_ref()
                 .take(full_size.into_u64())
                 .read_to_end(&mut buf)?;
